@@ -83,9 +83,9 @@ class Post(BaseModel):
 
 SCHEMAS = {c.__name__: c for c in (Person, Quote, Tagged, Note, Outer, Post)}
 
-HAZ = ["Ada", "None", "True story", "x,}", "it's", "a: 'b'", "ratio: NaN", "{not json}", "", "é☃",
-       "False alarm", "[1, 2,]", "k: undefined", "x, y: z", "two  spaces", 'say "hi"', "{a: 1}", "NaN", "\ud800"]
-HAZ_Q = HAZ[:8]  # quick tier
+HAZ = ["Ada", "None", "True story", "x,}", "it's", "a: 'b'", "ratio: NaN", "{not json}", "two  spaces", "", "é☃",
+       "False alarm", "[1, 2,]", "k: undefined", "x, y: z", 'say "hi"', "{a: 1}", "NaN", "\ud800"]
+HAZ_Q = HAZ[:9]  # quick tier
 
 
 def instances(tier):
@@ -574,26 +574,30 @@ class Judge:
 # driver
 # ----------------------------------------------------------------------------------------------
 
-TIERS = {"quick": {"maxlen": 2, "full_len": 1}, "thorough": {"maxlen": 3, "full_len": 2}}
+TIERS = {"quick": {"maxlen": 2, "full_len": 1, "parts": 1}, "thorough": {"maxlen": 3, "full_len": 2, "parts": 3}}
 
 
 def work(task):
     """All corruption sequences of one (schema, instance)."""
-    schema, data, maxlen, full_len = task
+    schema, data, maxlen, full_len, part, nparts = task
     seen = set()
     digests = []
+    nontrivial = []
     outcomes = set()
     viols = {}
-    n = {"sequences": 0, "inputs": 0, "inputs_all_orders": 0, "folds": 0, "nontrivial": 0, "clean_inputs": 0,
-         "syntactic_inputs": 0, "repair_unjudged": 0, "reduction_checked": 0, "reduction_mismatch": 0, "valid_results": 0}
+    n = {"sequences": 0, "sequences_distinct": 0, "inputs": 0, "inputs_all_orders": 0, "folds": 0, "nontrivial": 0, "clean_inputs": 0,
+         "syntactic_inputs": 0, "repair_unjudged": 0, "reduction_checked": 0, "reduction_mismatch": 0}
     for seq in sequences(op_alphabet(data), maxlen):
-        n["sequences"] += 1
+        n["sequences"] += part == 0
         doc = build(schema, data, seq)
         raw, syntactic = doc.render()
         key = (raw, syntactic, json.dumps(doc.data, sort_keys=True) if syntactic else None)
         if key in seen:
             continue
         seen.add(key)
+        n["sequences_distinct"] += part == 0
+        if (len(seen) - 1) % nparts != part:
+            continue  # another process judges this input (the enumeration is cheap and repeated per part)
         full = len(seq) <= full_len
         j = Judge(schema, raw, doc.data, syntactic)
         j.run(ALL_ORDERS if full else BASE_ORDERS)
@@ -606,20 +610,25 @@ def work(task):
         n["repair_unjudged"] += j.unjudged_repair
         n["reduction_checked"] += full
         n["reduction_mismatch"] += j.reduction_mismatch
-        digests.append(hashlib.md5((schema + "\x00" + raw).encode("utf-8", "surrogatepass")).digest()[:8])
+        dg = hashlib.md5((schema + "\x00" + raw).encode("utf-8", "surrogatepass")).digest()[:8]
+        digests.append(dg)
+        if j.any_valid():
+            nontrivial.append(dg)
         outcomes.add(j.signature())
         if j.v:
-            case = {"schema": schema, "instance": data, "ops": list(seq), "raw": raw}
+            # the instance travels as JSON text: replay files are written with sorted keys, field order matters here
+            case = {"schema": schema, "instance_json": json.dumps(data), "ops": list(seq), "raw": raw}
             for k, what in j.v:
                 viols.setdefault(k, [k, what, case, 0])[3] += 1
-    return {"n": n, "digests": b"".join(digests), "outcomes": outcomes, "viols": list(viols.values())}
+    return {"n": n, "digests": b"".join(digests), "nontrivial": b"".join(nontrivial), "outcomes": outcomes, "viols": list(viols.values())}
 
 
 def run(ctx):
     cfg = dict(TIERS[ctx.tier])
     inst = instances(ctx.tier)
     for attempt in (0, 1):
-        tasks = [(s, d, cfg["maxlen"], cfg["full_len"]) for s in SCHEMAS for d in inst[s]]
+        tasks = [(s, d, cfg["maxlen"], cfg["full_len"], p, cfg["parts"]) for s in SCHEMAS for d in inst[s]
+                 for p in range(cfg["parts"])]
         order = common.rotate(list(range(len(tasks))), ctx.seed)
         results = dict(zip(order, common.pmap(work, [tasks[i] for i in order])))
         mism = sum(results[i]["n"]["reduction_mismatch"] for i in range(len(tasks)))
@@ -630,12 +639,15 @@ def run(ctx):
         cfg["full_len"] = cfg["maxlen"]
     tot = {}
     distinct = set()
+    distinct_nt = set()
     for i in range(len(tasks)):  # canonical merge order
         r = results[i]
         for k, x in r["n"].items():
             tot[k] = tot.get(k, 0) + int(x)
         b = r["digests"]
         distinct.update(b[k:k + 8] for k in range(0, len(b), 8))
+        b = r["nontrivial"]
+        distinct_nt.update(b[k:k + 8] for k in range(0, len(b), 8))
         ctx.outcomes |= r["outcomes"]
         for key, what, case, cnt in r["viols"]:
             for _ in range(cnt):
@@ -647,14 +659,14 @@ def run(ctx):
                  "inputs (observation: the statement does not fix the cascade rule)")
     ctx.note(f"REPAIR results on non-syntactic corruptions (truncation, decoys, deep nesting) have no reference value "
              f"and are not judged for provenance: {tot['repair_unjudged']} results")
-    ctx.sample({"schema": tasks[0][0], "instance": tasks[0][1], "ops": ["single_quotes", "fence_json"],
+    ctx.sample({"schema": tasks[0][0], "instance_json": json.dumps(tasks[0][1]), "ops": ["single_quotes", "fence_json"],
                 "raw": build(tasks[0][0], tasks[0][1], ("single_quotes", "fence_json")).render()[0]})
     ctx.coverage.update(
         states=len(distinct),
         transitions=tot["folds"],
         traces_validated_against_impl=tot["folds"],
         evaluations=tot["folds"],
-        distinct_nontrivial=tot["nontrivial"],
+        distinct_nontrivial=len(distinct_nt),
         rule="engine D: 6 schemas x instances (hazard-string alphabets) x every corruption-operator sequence up to the "
         "length bound (flag/data operators not repeated, at most one truncation), rendered and de-duplicated per "
         "instance; each distinct raw text is folded by fold and fold_enhanced under the default order and all 64 "
@@ -681,8 +693,7 @@ def run(ctx):
 
 
 def replay(ctx, case):
-    schema, data, seq = case["schema"], case["instance"], tuple(case["ops"])
-    data = _untuple(data)
+    schema, data, seq = case["schema"], json.loads(case["instance_json"]), tuple(case["ops"])
     doc = build(schema, data, seq)
     raw, syntactic = doc.render()
     if raw != case["raw"]:
@@ -695,11 +706,3 @@ def replay(ctx, case):
             seen.add(k)
             out.append((k, what))
     return out
-
-
-def _untuple(x):
-    if isinstance(x, (tuple, list)):
-        return [_untuple(v) for v in x]
-    if isinstance(x, dict):
-        return {k: _untuple(v) for k, v in x.items()}
-    return x
